@@ -235,6 +235,30 @@ def getFromComposite (cfg : Cfg) (ac : AcReply) (cas : Cas) (sliceErr : Option C
       | some c => .error c)
   | (tr, .error c) => (tr, .error c)
 
+/-- One request as the backends and the caller see it. -/
+structure Served where
+  /-- CAS calls with their replies -/
+  calls : List Call
+  /-- number of reads of the Action Cache backend -/
+  acReads : Nat
+  outcome : Outcome
+  /-- the message handed to the caller (`Get`) or to the slicer (`GetFromComposite`) -/
+  message : Option AR
+
+/-- A request against an Action Cache whose answer may change from read to read (`acs i` is the
+reply to read number `i` of this request; entries can be overwritten while a check is in flight).
+The decorator reads the Action Cache once: `CloneCopy` gives it one copy to unmarshal and check and
+one to return, so the message handed out is the message that was checked.
+`composite = none`: `Get`; `some sliceErr`: `GetFromComposite`. -/
+def serve (cfg : Cfg) (acs : Nat → AcReply) (cas : Cas) (composite : Option (Option Code)) : Served :=
+  let r := match composite with
+    | none => getAR cfg (acs 0) cas
+    | some e => getFromComposite cfg (acs 0) cas e
+  { calls := r.1, acReads := 1, outcome := r.2,
+    message := match r.2, acs 0 with
+      | .result, .ok ar => some ar
+      | _, _ => none }
+
 /-! ### The scripted CAS of the driver: presence oracle + blob table + fault script -/
 
 /-- `FindMissing` answers `batch ∩ missing`; `Get` serves the blob registered for the digest
